@@ -166,4 +166,10 @@ def getStorageMetadataShape : List Bytes := [b!"defer mets.FromContext(ctx).Mark
     "failed hit" actor because a failed hit does nothing to the shared state) -/
 def sendBodySites : List Bytes := [b!"fatal,err:=sendBody(*w,cr.Reader,cr.Metadata.Size,rRange,logctx)", b!"if (err!=nil) {if fatal {cache.Finish(key,logger)}}", b!"_,err:=sendBody(*w,cr.Reader,cr.Metadata.Size,rRange,logctx)", b!"if (err!=nil) {writeError(*w,err)}"]
 
+/-- C16 C17: the whole body of runSizeLimiter — start-up scan, restored access times, then per item taken from
+    the channel: the op switch, the 5 s throttle, the purge pass with its bookkeeping. The limiter stream drives
+    the op switch and the purge through value-level wrappers; that nothing else stands between an item and a
+    pass (no early `continue` by op kind, no other throttle) is what this pin says. -/
+def runSizeLimiterShape : List Bytes := [b!"t:=time.Now()", b!"fileCount:=s.readFiles(s.path)", b!"s.logger.Infof(\"Read sizes of %v files in %v: %v\",fileCount,time.Now().Sub(t),s.sizeBytes)", b!"t=time.Now()", b!"withAccessTime,err:=s.readStorableAccessTimes()", b!"if (err!=nil) {s.logger.Infof(\"Errored when reading access times: %v\",err)} else if (len(withAccessTime)>0) {s.logger.Infof(\"Read access times of %v files in %v\",len(withAccessTime),time.Now().Sub(t));t=time.Now();range n,i:withAccessTime{s.withAccessTime[n]=i;delete(s.withoutAccessTime,n)};s.logger.Infof(\"Set access times of %v files in %v\",len(withAccessTime),time.Now().Sub(t))}", b!"sleepTime:=(time.Second*5)", b!"sleepTime=verifSleep(sleepTime)", b!"lastRun:=time.Now().Add(-sleepTime)", b!"printChanLen:=false", b!"for {if s.isReplaced {break};verifPointS(\"limiter.loop\",s.id);io:=<-s.itemsChan;switch io.op {case opAdd:if (io.accessedItem!=nil) {s.withAccessTime[io.name]=*io.accessedItem;s.sizeBytes+=int64((io.accessedItem.sizeKilobytes*1024))}|case opAccessTime:if (io.accessedItem!=nil) {s.withAccessTime[io.name]=*io.accessedItem};if (io.storableAccessedItem!=nil) {s.storableAccessedItems[io.name]=*io.storableAccessedItem}|case opFlushStorable:s.flushStorableAccessTimes()};if printChanLen {go mets.NewMetrics(nil,nil,nil).WithSampleRate(1).Mark(\"items channel length\",len(s.itemsChan));printChanLen=false};if (time.Now().Sub(lastRun)<sleepTime) {continue};printChanLen=true;s.logger.Info(s.stats());purgeable:={};if (s.sizeBytes>s.maxSizeBytes) {purgeable=s.purgeableItemNames((s.sizeBytes-s.maxSizeBytes))};if ((len(purgeable.withAccessTimes)==0)&&(len(purgeable.withoutAccessTimes)==0)) {lastRun=time.Now();continue};removedWithoutAccessTimes:={};removedWithAccessTimes:={};rmFiles:=func{range _,name:*ins{fsPath:=filepath.Join(s.path,string(name));err:=os.Remove(fsPath);if (err!=nil) {if os.IsNotExist(err) {s.logger.Infof(\"File had been removed already %v: %v\",fsPath,err)} else {s.logger.Infof(\"Failed to remove file %v: %v\",fsPath,err);continue}};*removed=append(*removed,name)}};rmFiles(&purgeable.withoutAccessTimes,&removedWithoutAccessTimes);rmFiles(&purgeable.withAccessTimes,&removedWithAccessTimes);range _,n:removedWithAccessTimes{sizeKb:=s.withAccessTime[n].sizeKilobytes;delete(s.withAccessTime,n);s.sizeBytes-=int64((sizeKb*1024))};range _,n:removedWithoutAccessTimes{sizeKb:=s.withoutAccessTime[n].sizeKilobytes;delete(s.withoutAccessTime,n);s.sizeBytes-=int64((sizeKb*1024))};s.logger.Infof(\"Removed %v / %v items to release at least %v MB\",(len(removedWithoutAccessTimes)+len(removedWithAccessTimes)),(len(purgeable.withoutAccessTimes)+len(purgeable.withAccessTimes)),((purgeable.size/1024)/1024));lastRun=time.Now()}"]
+
 end Spec
